@@ -40,6 +40,31 @@ deriving Repr, DecidableEq
 
 /-! ## Expiration -/
 
+/-- The *frame* of an expiration decision: everything else the reconciled NodeClaim and its surroundings carry
+    that is **not** part of the documented trigger (creation time, `spec.expireAfter`, the clock):
+
+    * durations — `spec.terminationGracePeriod` of the NodeClaim, the owning NodePool's template `expireAfter`
+      and `terminationGracePeriod` (they differ from the NodeClaim's once the pool has been edited);
+    * instants — the transition times of the status conditions (Launched, Registered, Initialized, Drifted,
+      Consolidatable, …), the termination-timestamp annotation, `status.lastPodEventTime`, the creation time
+      of the NodeClaim's Node;
+    * flags — `karpenter.sh/do-not-disrupt`, a Node that is present / terminating, pods bound to it, condition
+      statuses.
+
+    `Controller.Reconcile` reads none of it: the model carries the frame only to *say* so (`expiration` below
+    never looks at `i.frame`; `C16_expiration_frame` is the statement), and the correspondence harness varies
+    all of it on the real controller. -/
+structure ExpFrame where
+  /-- `spec.terminationGracePeriod` (`none` = unset): how long a *deleted* NodeClaim may keep draining. It
+      starts counting at the Delete; it does not move the Delete. -/
+  terminationGracePeriod : Option Int := none
+  /-- further named durations found on the object / its NodePool -/
+  durations : List (String × Int) := []
+  /-- named instants found on the object / its Node -/
+  instants : List (String × Int) := []
+  flags : List String := []
+deriving Repr
+
 structure ExpIn where
   managed     : Bool
   deleting    : Bool
@@ -47,6 +72,7 @@ structure ExpIn where
   created     : Int
   now         : Int
   deleteFault : Fault
+  frame       : ExpFrame := {}
 deriving Repr
 
 def expiration (i : ExpIn) : Out :=
@@ -157,6 +183,9 @@ inductive Pool
   | foreign   -- NodePool exists but the claim is owned by another UID
 deriving Repr, DecidableEq
 
+/-- Frame: the NodeClaim's `spec.terminationGracePeriod` and `spec.expireAfter` are deliberately **not** fields
+    of `LiveIn` — neither timeout depends on them (the correspondence op sets them on the real NodeClaim, with
+    clocks inside `[timeout − terminationGracePeriod, timeout)`, and the model must still agree). -/
 structure LiveIn where
   managed       : Bool
   deleting      : Bool
@@ -299,6 +328,9 @@ deriving Repr, DecidableEq
 inductive Annot | none | time (sec : Int) | garbage
 deriving Repr, DecidableEq
 
+/-- Frame: the NodeClaim's `spec.terminationGracePeriod` and `spec.expireAfter` are deliberately **not** fields
+    of `RepairIn` — the toleration is the provider's alone (the correspondence op sets them on the real
+    NodeClaim, with clocks inside `[toleration end − terminationGracePeriod, toleration end)`). -/
 structure RepairIn where
   policies       : List Policy
   node           : RNode
